@@ -2,6 +2,7 @@ package props
 
 import (
 	"fmt"
+	"io"
 	"sort"
 	"strings"
 	"testing"
@@ -126,9 +127,14 @@ func checkEntity(c *mon.Case, e *entity, faults bool) {
 		st := e.St.Clone()
 		st.Logging = true
 		// rotate over the link-system configurations a caller may have
-		cfg := (fi + len(e.Blocks) + lsCfgSalt) % 3
+		cfg := (fi + len(e.Blocks) + lsCfgSalt) % 4
 		lsCfgSalt++
 		ls := st.LinkSystemCfg(true, cfg == 1, cfg == 2)
+		if cfg == 3 {
+			// a link system derived by value from a configured one, with its own block source: the
+			// original's source holds every block but is not the one this access may use
+			ls = st.LinkSystemDerived(e.St.Clone())
+		}
 		c.Count(fmt.Sprintf("linksystem_cfg_%d", cfg), 1)
 		// the root is handed over as the plain dag-pb node (loaded without any node reifier)
 		raw, err := loadRaw(st.LinkSystem(false), e.Root)
@@ -171,8 +177,8 @@ func checkEntity(c *mon.Case, e *entity, faults bool) {
 			continue
 		}
 		for i, b := range e.Blocks {
-			for ek := 0; ek < 3; ek++ {
-				if ek == 1 && i%3 != 0 && len(e.Blocks) > 12 {
+			for ek := 0; ek < 4; ek++ {
+				if (ek == 1 || ek == 3) && i%3 != ek%3 && len(e.Blocks) > 12 {
 					continue // second error kind on a third of the blocks of big entities
 				}
 				if ek == 2 && (form.Name != "preload-reifier" || (i%2 != 0 && len(e.Blocks) > 12)) {
@@ -186,6 +192,8 @@ func checkEntity(c *mon.Case, e *entity, faults bool) {
 					st.AbsentErr = store.ErrInjected
 				} else if ek == 2 {
 					st.AbsentErr = traversal.SkipMe{}
+				} else if ek == 3 {
+					st.AbsentErr = fmt.Errorf("verif store: connection closed while reading block: %w", io.EOF)
 				}
 				st.ResetLog()
 				var ferr error
